@@ -185,13 +185,28 @@ class Check:
                 if key not in [h["key"] for h in s.known_hits]:
                     s.known_hits.append(dict(key=key, what=k.get("what", what)))
                 return "known"
+        for v in s.violations:
+            if v["key"] == key: v["count"] = v.get("count", 1) + 1; return "dup"
         d = os.path.join(VERIF, "evidence", "replay"); os.makedirs(d, exist_ok=True)
-        p = os.path.join(d, "%s-%d.json" % (s.pid, len(s.violations) + 1))
+        p = os.path.join(d, "%s-%s.json" % (s.pid, hashlib.sha1(str(key).encode()).hexdigest()[:10]))
         json.dump(dict(property=s.pid, what=what, key=key, replay=replay_obj), open(p, "w"), indent=1, default=str)
         s.violations.append(dict(what=what, key=key, replay=p))
         return "new"
     def not_reproduced(s, what):
         s.inconclusive.append("solver model did not reproduce on the real code (encoding/stub artefact or boundary case): " + what)
+    # ---- sub-checks run in worker processes
+    def export(s):
+        return dict(obl=s.obl, paths=s.paths, distinct=sorted(map(str, s.distinct)), samples=s.samples, violations=s.violations,
+                    known_hits=s.known_hits, inconclusive=s.inconclusive, vacuity=s.vacuity, notes=s.notes, stats=STATS.asdict(), extra=s.extra)
+    def absorb(s, d):
+        s.obl += d["obl"]; s.paths += d["paths"]; s.distinct |= set(d["distinct"]); s.inconclusive += d["inconclusive"]
+        s.vacuity += d["vacuity"]; s.notes += d["notes"]
+        for x in d["samples"]: s.sample(x)
+        for v in d["violations"]:
+            if v["key"] not in [w["key"] for w in s.violations]: s.violations.append(v)
+        for h in d["known_hits"]:
+            if h["key"] not in [w["key"] for w in s.known_hits]: s.known_hits.append(h)
+        s.merge_stats(d["stats"])
     # ---- finish
     def finish(s, explanation):
         wall = time.time() - s.t0
